@@ -569,11 +569,34 @@ def model_line(c):
 
 
 # ----------------------------------------------------------------------------- running
+# OpenMP environments (wave 3): the property must hold whatever the threading of the host application; a case may carry
+# "omp": <label> and is then run (and replayed) under that environment
+OMP_ENVS = {
+    None: {"OMP_NUM_THREADS": "2"},
+    "serial": {"OMP_NUM_THREADS": "1"},
+    "limit-below-num-threads": {"OMP_NUM_THREADS": "4", "OMP_THREAD_LIMIT": "2"},
+    "nested": {"OMP_NUM_THREADS": "3", "OMP_NESTED": "true", "OMP_MAX_ACTIVE_LEVELS": "2", "OMP_DYNAMIC": "false"},
+}
+
+
 def run_impl(ctx, exe, cases):
+    """every case under its OpenMP environment (one process per environment)"""
+    results = [None] * len(cases)
+    groups = {}
+    for i, c in enumerate(cases):
+        label = c.get("omp")
+        groups.setdefault(label if label in OMP_ENVS else None, []).append(i)
+    for label, idxs in groups.items():
+        res = run_impl_env(ctx, exe, [cases[i] for i in idxs], OMP_ENVS[label])
+        for i, r in zip(idxs, res):
+            results[i] = r
+    return results
+
+
+def run_impl_env(ctx, exe, cases, env):
     """returns a list of dicts {R: {tag: (n, m, [tokens])}, X: str|None, crashed: str|None, ended: bool}"""
     results = [None] * len(cases)
     start = 0
-    env = {"OMP_NUM_THREADS": "2"}
     while start < len(cases):
         inp = "".join(impl_line(c) + "\n" for c in cases[start:])
         r = ctx.run(exe, inp, timeout=300, env=env)
@@ -1167,9 +1190,17 @@ def build_cases(ctx, quick):
             c = {"kind": "EMB", "method": meth, "solver": "dense", "N": N, "D": D, "d": rng.randint(1, 3), "k": 5, "X": X,
                  "Q": Q, "combos": combos, "style": style, "boundary": True}
             generated += variants(rng, c, 2, 2)
+    # wave 3: every sixth public-API case of a projecting method once more under another OpenMP environment
+    # (single thread; OMP_THREAD_LIMIT below OMP_NUM_THREADS; nested parallelism on)
+    labels = ["serial", "limit-below-num-threads", "nested"]
+    api = [c for c in generated if c["kind"] == "EMB" and c["method"] in FIVE and c["N"] <= 64]
+    for j, c in enumerate(api[::6]):
+        generated.append(dict(c, omp=labels[j % 3]))
     for c in generated:
         key = hist_key(c)
         bump(hist, key)
+        if c.get("omp"):
+            bump(hist, "openmp-environment:" + c["omp"])
         if c.get("ids") is not None:
             bump(hist, "non-identity-range:" + c.get("range", "?"))
         if c.get("scale_log2"):
